@@ -396,6 +396,50 @@ def R1_effect_requires_authority(run):
     run.floor("R1", "anchor entries analysed", n_entries, 59)
 
 
+def R1e_mutated_accounts_are_mut(run):
+    run.title("R1e", "every account a handler mutates through a state setter is declared `mut` (or created / closed) in its accounts struct: Anchor writes back "
+                     "only those, so a missing `mut` turns the handler's update into a no-op that still succeeds")
+    facts = run.facts
+    structs = ACC.load(facts)
+    n = 0
+    for e in program.entries(facts):
+        if not e.handler:
+            continue
+        h = facts.fn(e.handler)
+        st = structs.get(e.ctx_struct)
+        if h is None or st is None:
+            continue
+        pv = prov_of(h)
+        subjects = {}
+        # setters reached from the handler through helpers that receive the account (e.g. update_and_swap_whirlpool(&mut ctx.accounts.whirlpool, ..))
+        for bi, t in h.calls():
+            p = callee_path(t) or ""
+            g = facts.fn(p)
+            if g is None or not g.sig or not g.sig["in"] or h.blocks[bi]["c"]:
+                continue
+            for i, ty in enumerate(g.sig["in"]):
+                if not ty.startswith("&mut ") or i >= len(t["a"]):
+                    continue
+                if not any(x in ty for x in ("state::", "Account<", "AccountLoader<")):
+                    continue
+                a_ = pv.operand(t["a"][i], bi, len(h.blocks[bi]["s"]))
+                name = _acc_ref(a_)
+                if name:
+                    subjects.setdefault(name, p.rsplit("::", 1)[-1])
+        for (mpath, mb, recv, _args, ws_) in writes.recognise_mutators(facts, h):
+            name = _acc_ref(recv)
+            if name:
+                subjects.setdefault(name, mpath.rsplit("::", 1)[-1] + " (written in place)")
+        for name, via in sorted(subjects.items()):
+            f = st.field(name)
+            if f is None or f.kind not in ("Account", "AccountLoader", "InterfaceAccount"):
+                continue
+            n += 1
+            run.check("R1e", "mut:%s.%s" % (st.name, name), f.is_mut, "%s.%s is mutated by the handler (%s) but is not declared `mut`: the change is not written back" % (st.name, name, via),
+                      loc=st.loc(name), detail="mutated through %s; declared mut" % via)
+    run.floor("R1e", "mutated accounts", n, 40)
+
+
 def R1b_no_unlisted_writers(run):
     run.title("R1b", "authority and rate fields are written only through the classified mutators (so R1 sees every write), and no handler "
                      "stores to state-account fields directly except the one confirmed migration")
@@ -852,5 +896,5 @@ def R4b_token_account_loader(run):
               detail="multisig length, length <= init offset, init byte 0, account-type byte")
 
 
-RULES = [R1_effect_requires_authority, R1b_no_unlisted_writers, R1c_migration_exception, R2_authority_helpers,
+RULES = [R1_effect_requires_authority, R1e_mutated_accounts_are_mut, R1b_no_unlisted_writers, R1c_migration_exception, R2_authority_helpers,
          R3_pinocchio_labelling, R4_token_view_layout, R4b_token_account_loader]
